@@ -287,6 +287,15 @@ def cases():
             c["retry"] = {"ErrorEquals": names, "IntervalSeconds": draw(st.integers(1, 2)), "MaxAttempts": draw(st.integers(1, 2)), "BackoffRate": 1.0}
             if h == "retry-ok":
                 c["fail_attempts"] = 1
+        if draw(st.integers(0, 7)) == 0:
+            # directed family: the enclosing state has already failed (its sibling Branch failed at once) and its slow Catch target is running when a Branch of the
+            # nested fan-out fails by itself (time-out or a late error reply): that failure belongs to a terminated Branch and must change nothing
+            c.update(outer=True, outer_catch=True, slow_outer_catch=True, outer_sibling_fails=True)
+            c.pop("catch", None), c.pop("retry", None), c.pop("inner_catch", None), c.pop("slow_catch", None), c.pop("fail_attempts", None)
+            if not any(fails):
+                fails[draw(st.integers(0, n - 1))] = draw(st.sampled_from(["task", "timeout"]))
+            c["fails"] = ["timeout" if f in ("failstate", "runtime") else f for f in fails]
+            c["delays"] = [draw(st.sampled_from([1, 3])) if c["fails"][i] else c["delays"][i] for i in range(n)]
         definition, input_value, oracle = build(c)
         sched = draw(st.lists(st.integers(0, 6), max_size=50))
         mcase = {"definition": definition, "input": input_value, "oracle": oracle, "type": draw(st.sampled_from(["STANDARD", "STANDARD", "EXPRESS"])), "c06": c,
